@@ -620,6 +620,51 @@ func checkC07InitKey(c *Ctx) {
 	if n == 0 {
 		r.Unk("C07.init-resets-main-buffer", "history.Init:undo-reset", "-", "the reset of the main buffer's undo states was not found")
 	}
+	// every path on which the new call starts on the line being typed (walk position -1, no kept line) drops the
+	// states of that line — also after operate-and-get-next on a line that was typed, not fetched
+	isReset := func(x ssa.Instruction) bool {
+		mu, ok := x.(*ssa.MapUpdate)
+		if !ok {
+			return false
+		}
+		if k, isK := constInt(mu.Key); isK && k == -1 {
+			return true
+		}
+		if ld, isL := mu.Key.(*ssa.UnOp); isL && isFieldLoad(ld, "history.Sources", "hpos") {
+			for _, y := range x.Block().Instrs {
+				if y == x {
+					break
+				}
+				if st, is := isFieldStore(y, "history.Sources", "hpos"); is {
+					if k, isK := constInt(st.Val); isK && k == -1 {
+						return true
+					}
+				}
+			}
+		}
+		return false
+	}
+	assume := func(cond ssa.Value) (bool, bool) {
+		if isFieldLoad(cond, "history.Sources", "acceptHold") {
+			return false, true
+		}
+		if bo, ok := cond.(*ssa.BinOp); ok && (bo.Op == token.EQL || bo.Op == token.NEQ) && isFieldLoad(bo.X, "history.Sources", "hpos") {
+			if k, isK := constInt(bo.Y); isK {
+				eq := k == -1
+				if bo.Op == token.NEQ {
+					return !eq, true
+				}
+				return eq, true
+			}
+		}
+		return false, false
+	}
+	w := reachUnder(IN, assume, func(x ssa.Instruction) bool { return isReturn(x) && x.Block() != IN.Recover }, isReset)
+	pos := p.Pos(IN.Pos())
+	if w != nil {
+		pos = p.IPos(w)
+	}
+	r.Check(w == nil, "C07.init-resets-main-buffer", "history.Init:typed-line-paths", pos, "every path starting on the typed line resets its states", "a path of Init on which the call starts on the line being typed (walk position -1, no kept line) keeps the undo states of the previous call's typed line — after operate-and-get-next on a typed line, undo in the next call shows text of the previous one")
 }
 
 // ---- C07.reset-rewinds
